@@ -188,6 +188,16 @@ type padded struct {
 	b int64
 	c int16
 }
+// blank: no padding, but a blank field: Go's == (and a builtin map) ignores `_`, whatever bytes it holds
+type blank struct {
+	a uint32
+	_ uint32
+	b uint64
+}
+
+// blankArr: an array of such structs
+type blankArr [2]blank
+
 type withString struct {
 	s string
 	n int
@@ -285,6 +295,17 @@ func main() {
 		p.a, p.b, p.c = k.a, k.b, k.c
 		return *p
 	}, nil}, seed, nops)
+	mkBlank := func(a uint32, b uint64, junk uint32) blank {
+		var buf [unsafe.Sizeof(blank{})]byte
+		*(*uint32)(unsafe.Pointer(&buf[0])) = a
+		*(*uint32)(unsafe.Pointer(&buf[4])) = junk // the bytes of the blank field
+		*(*uint64)(unsafe.Pointer(&buf[8])) = b
+		return *(*blank)(unsafe.Pointer(&buf[0]))
+	}
+	runType(spec[blank]{"struct{uint32;_ uint32;uint64} (blank field)", func(i int) blank { return mkBlank(uint32(i), uint64(i)*7, 0) },
+		func(k blank) blank { return mkBlank(k.a, k.b, 0xDEADBEEF) }, nil}, seed, nops)
+	runType(spec[blankArr]{"[2]struct{uint32;_ uint32;uint64}", func(i int) blankArr { return blankArr{mkBlank(uint32(i), 1, 0), mkBlank(2, uint64(i), 0)} },
+		func(k blankArr) blankArr { return blankArr{mkBlank(k[0].a, k[0].b, 0x11111111), mkBlank(k[1].a, k[1].b, 0x22222222)} }, nil}, seed, nops)
 	runType(spec[withString]{"struct{string;int}", func(i int) withString { return withString{fmt.Sprint("s", i), i} }, func(k withString) withString {
 		return withString{freshString(k.s), k.n}
 	}, nil}, seed, nops)
